@@ -6,3 +6,8 @@ package icmp
 func VerifSetEchoIDBase(v uint32) {
 	curEchoID.Store(v)
 }
+
+// VerifNextEchoID draws the next echo identifier exactly as a new ICMP driver does.
+func VerifNextEchoID() uint16 {
+	return nextEchoID()
+}
